@@ -257,6 +257,7 @@ func runC09(c *core.Ctx) {
 	// away from it; signed zeros; the largest capacity
 	if c.Shard == 0 {
 		c09ValueKinds(res)
+		c09LargeCapacity(res)
 	}
 	// ---- bounded exhaustive
 	L := c.Pick(6, 7)
@@ -460,6 +461,29 @@ func dumpLines(d string) int {
 		return strings.Count(n, "\n") + 1
 	}
 	return 0
+}
+
+// c09LargeCapacity: a capacity in the thousands is honoured exactly (no eviction before it is reached,
+// eviction of the oldest entry at capacity+1).
+func c09LargeCapacity(res *core.Result) {
+	for _, capacity := range []int{4097, 5000, 70000} {
+		l := valid.NewLRU(capacity)
+		removed := []interface{}{}
+		l.SetDelCallBackFn(func(k, v interface{}) { removed = append(removed, k) })
+		for i := 0; i < capacity; i++ {
+			l.Store(i, i)
+		}
+		res.Eval()
+		_, ok0 := l.Load(0) // also makes key 0 the most recently used one
+		if n := l.Len(); n != capacity || len(removed) != 0 || !ok0 {
+			res.Violate("C09|large-capacity|early-eviction", fmt.Sprintf("NewLRU(%d): after %d stores Len()=%d, %d removal callbacks, Load(first key) hit=%v", capacity, capacity, n, len(removed), ok0), capacity)
+			continue
+		}
+		l.Store(capacity, capacity) // overflow: the least recently used key is 1 (0 was just loaded)
+		if n := l.Len(); n != capacity || len(removed) != 1 || removed[0] != 1 {
+			res.Violate("C09|large-capacity|overflow", fmt.Sprintf("NewLRU(%d): overflow left Len()=%d and removed %v (want key 1)", capacity, n, removed), capacity)
+		}
+	}
 }
 
 func c09ValueKinds(res *core.Result) {
